@@ -333,6 +333,16 @@ fn cancelled_outcomes(code: &[u8], knobs: &Knobs, scheds: &[Sched], k: u64, one_
     Some(outs)
 }
 
+fn cancelled_signature(one_shot: bool, a: &Outcome, b: &Outcome) -> String {
+    let site = a.first_true_site.map_or("none", |s| storage_layout_extractor::verif::SITE_NAMES[s]);
+    let show = |o: &Outcome| match o.class {
+        Class::Ok => format!("layout with {} slots", o.layout.as_ref().map_or(0, |l| l.slots().len())),
+        Class::Err => format!("error {:?}", o.error_kinds()),
+        Class::Panic => "panic".to_string(),
+    };
+    format!("cancelled:{} stop request seen in {site}: {} | {}", if one_shot { "one-shot" } else { "sticky" }, show(a), show(b))
+}
+
 fn cancelled_divergence(code: &[u8], knobs: &Knobs, scheds: &[Sched], r: &mut Rng, res: &mut CaseResult) -> Option<Violation> {
     let three: Vec<Sched> = vec![scheds[0].clone(), scheds[1 % scheds.len()].clone(), scheds[scheds.len() - 1].clone()];
     let mut probe_sc = cancelled_scenario(code, knobs, &three[0], u64::MAX, false);
@@ -366,15 +376,9 @@ fn cancelled_divergence(code: &[u8], knobs: &Knobs, scheds: &[Sched], r: &mut Rn
     res.fault(if one_shot { "one_shot_stop_request_under_three_orders" } else { "sticky_stop_request_under_three_orders" });
     let first = outs[0].result_digest();
     let ix = outs.iter().position(|o| o.result_digest() != first)?;
-    let site = outs[0].first_true_site.map_or("none", |s| storage_layout_extractor::verif::SITE_NAMES[s]);
-    let show = |o: &Outcome| match o.class {
-        Class::Ok => format!("layout with {} slots", o.layout.as_ref().map_or(0, |l| l.slots().len())),
-        Class::Err => format!("error {:?}", o.error_kinds()),
-        Class::Panic => "panic".to_string(),
-    };
     Some(Violation {
         property:  "C02".into(),
-        signature: format!("cancelled:{} stop request seen in {site}: {} | {}", if one_shot { "one-shot" } else { "sticky" }, show(&outs[0]), show(&outs[ix])),
+        signature: cancelled_signature(one_shot, &outs[0], &outs[ix]),
         detail:    json!({"program": hex::encode(code), "knobs": knobs, "stop_at_poll": k, "one_shot": one_shot, "schedule_a": three[0].label(), "schedule_b": three[ix].label(), "result_a": outs[0].summary(), "result_b": outs[ix].summary()}),
         replay:    json!({"check": "C02", "kind": "cancelled", "code": hex::encode(code), "knobs": knobs, "sched_a": three[0], "sched_b": three[ix], "k": k, "one_shot": one_shot}),
     })
@@ -496,7 +500,7 @@ impl Check for C02Check {
             }
             return Ok(Some(Violation {
                 property:  "C02".into(),
-                signature: format!("cancelled:{} stop request: results differ", if one_shot { "one-shot" } else { "sticky" }),
+                signature: cancelled_signature(one_shot, &outs[0], &outs[1]),
                 detail:    json!({"result_a": outs[0].summary(), "result_b": outs[1].summary()}),
                 replay:    payload.clone(),
             }));
